@@ -17,6 +17,7 @@ import (
 	"go.uber.org/zap"
 
 	"github.com/ava-labs/hypersdk/event"
+	"github.com/ava-labs/hypersdk/internal/verifhook"
 )
 
 var (
@@ -171,6 +172,8 @@ func (b *StatefulBlock[I, O, A]) accept(ctx context.Context, parentAccepted A) e
 	b.Accepted = acceptedBlk
 	b.accepted = true
 
+	verifhook.Point("snow.accept.beforeNotify")
+	defer verifhook.Point("snow.accept.afterNotify")
 	return event.NotifyAll(ctx, b.Accepted, b.vm.acceptedSubs...)
 }
 
@@ -336,10 +339,12 @@ func (b *StatefulBlock[I, O, A]) Accept(ctx context.Context) error {
 	if err := b.vm.inputChainIndex.UpdateLastAccepted(ctx, b.Input); err != nil {
 		return err
 	}
+	verifhook.Point("snow.accept.afterIndex")
 
 	// If I'm ready, queue the block for processing
 	if b.vm.ready {
 		b.queueAccept()
+		verifhook.Point("snow.accept.afterQueue")
 	} else {
 		// If I'm not ready, send the pre-ready notification directly from the consensus thread.
 		if err := event.NotifyAll(ctx, b.Input, b.vm.preReadyAcceptedSubs...); err != nil {
@@ -375,6 +380,7 @@ func (b *StatefulBlock[I, O, A]) queueAccept() {
 // processAccept processes the block as accepted by invoking Accept on the underlying chain
 func (b *StatefulBlock[I, O, A]) processAccept(ctx context.Context) error {
 	defer b.vm.acceptedQueueBlocksProcessedWg.Done()
+	verifhook.Point("snow.processAccept.entry")
 
 	parent, err := b.vm.GetBlock(ctx, b.Parent())
 	if err != nil {
